@@ -298,3 +298,82 @@ func VerifHarness_KeyTreeHistory() {
 		verifAssert(ch == nil, "C11: a refused change modifies nothing")
 	}
 }
+
+func init() {
+	verifHarnesses["VerifHarness_TwoTransfers"] = VerifHarness_TwoTransfers
+	verifHarnesses["VerifHarness_ExtraEips"] = VerifHarness_ExtraEips
+}
+
+// VerifHarness_TwoTransfers: two value transfers of two different frames that may
+// involve the same accounts; every frame has its own before/after entries, whatever
+// an earlier frame recorded (balances may or may not change in between).
+func VerifHarness_TwoTransfers() {
+	tr := NewTracer()
+	db := newVerifStateDB()
+	a, b := verifAddr("a"), verifAddr("b")
+	verifAssume(a != b)
+	amount := verifBig("amount")
+	tf := func(sdb StateDB, f, t common.Address, x *big.Int) {
+		if verifBool("transfer.changes.state") {
+			sdb.(*verifStateDB).emit(verifEvent{kind: "Transfer"})
+		}
+	}
+	var idx [2]uint64
+	var obs [2][]verifObs
+	for k := 0; k < 2; k++ {
+		from, to := a, b
+		if k == 1 && verifBool("second.reversed") {
+			from, to = b, a
+		}
+		tr.SaveCall(from, &to, nil, uint256.NewInt(0), uint256.NewInt(0))
+		idx[k] = tr.CurrentCallIndex()
+		b1 := uint256.MustFromBig(db.GetBalance(from)).Bytes()
+		b2 := uint256.MustFromBig(db.GetBalance(to)).Bytes()
+		tr.TransferWithRecord(db, from, to, amount, tf)
+		b3 := uint256.MustFromBig(db.GetBalance(from)).Bytes()
+		b4 := uint256.MustFromBig(db.GetBalance(to)).Bytes()
+		obs[k] = []verifObs{{from, b1}, {to, b2}, {from, b3}, {to, b4}}
+		if k == 0 && verifBool("first.returns") {
+			tr.ExitCall(0, nil, nil)
+		}
+	}
+	verifReach("both-transferred")
+	verifAssert(idx[0] != idx[1], "two frames have two call indices")
+	for _, who := range []common.Address{a, b} {
+		ch := tr.StateChanges().Balance(who)
+		verifAssert(ch != nil, "C13: both parties have a balance journal")
+		m := ch.Changes()
+		verifAssert(len(m) == 2, "C13: entries under each frame's own call index")
+		for k := 0; k < 2; k++ {
+			verifSameLists(m[idx[k]], verifCollapse(obs[k], who), "C13: every frame records its own before/after balances")
+		}
+	}
+}
+
+// VerifHarness_ExtraEips: an interpreter built with every activatable extra EIP on every
+// fork table; whatever the activators write must land in the interpreter's own copy of the
+// table (the engine reports every write to package-level memory), and a plain interpreter
+// built afterwards still sees the fork's unmodified table.
+func VerifHarness_ExtraEips() {
+	for fork := uint64(0); fork <= 11; fork++ {
+		table, rules := verifTable(fork)
+		var before [256]operation
+		for i := range table {
+			before[i] = *table[i]
+		}
+		for eip := range activators {
+			evm := &EVM{chainRules: rules, StateDB: newVerifStateDB(), tracer: NewTracer()}
+			evm.Config.ExtraEips = []int{eip}
+			in := NewEVMInterpreter(evm)
+			verifAssert(in.table != table, "C17: extra EIPs are enabled on a private copy of the table")
+		}
+		for i := range table {
+			o := table[i]
+			verifAssert(o.constantGas == before[i].constantGas && o.minStack == before[i].minStack && o.maxStack == before[i].maxStack &&
+				verifFuncName(o.execute) == verifFuncName(before[i].execute) && verifFuncName(o.dynamicGas) == verifFuncName(before[i].dynamicGas),
+				"C17: enabling extra EIPs on one interpreter leaves the shared fork table untouched")
+		}
+	}
+	verifReach("all-enabled")
+}
+
